@@ -4,7 +4,9 @@ F16C = ['-mf16c']
 
 # ------------------------------------------------------------------ C07
 def spec(th, seed):
-    units = [U('C07_half.plain', 'mon/C07_half.cpp', 'plain', defs=F16C)]
+    units = [U('C07_half.plain', 'mon/C07_half.cpp', 'plain', defs=F16C),
+             # SIMD configuration at an ISA level that has hardware half conversion (a glm fast path there must still keep NaN codes, ties, ...)
+             U('C07_half.simd-avx-f16c', 'mon/C07_half.cpp', 'plain', defs=F16C + ['-DGLM_FORCE_INTRINSICS', '-mavx2', '-mfma'], args=['--x-stride', '7'])]
     if th:
         units.append(U('C07_half.clang', 'mon/C07_half.cpp', 'clang', defs=F16C))
         units.append(U('C07_half.O0', 'mon/C07_half.cpp', 'plainO0', defs=F16C, args=['--x-stride', '61']))
